@@ -59,6 +59,12 @@ CHECKS = {
     "C18": ("exploration", "out-of-date oracle on epoch seconds vs the run's rebuilt set, per process time zone and datetime representation",
             "Held on the sampled (zone, representation, instant) combinations incl. DST transition windows and real file stores: the rebuilt set equals the one computed from true instants.",
             "naive datetimes denote local time; tz database present", "3/C18"),
+    "C19": ("exploration", "sys._getframe chain captured on the creating source line vs CallError.call.stack_frame and the rendered message, over generated builder modules",
+            "Held on the sampled builders (every kind of symbolic call, depths below/at/above the limit, helpers, both failure phases): the failing call is named, its symbolic traceback equals the captured frames with the truncation marker exactly when more exist, and the message lists them outermost first.",
+            "capture helper and uberjob call share one source line; depth limit read from the code", "3/C19"),
+    "C20": ("exploration", "generated legal notification sequences with a virtual clock driven into the bundled observers; render-exception, final-rendering and elapsed-sum monitors",
+            "Held on the sampled sequences over arbitrary hashable scopes: no rendering raised (direct or in the update thread), the last console line / HTML document / widget label per scope shows the final counts, attributed elapsed time sums to the busy virtual time.",
+            "virtual clock substituted for the module's time; ipywidgets importable", "3/C20"),
     "C14": ("exploration", "event-log monitor during dry runs + differential execution of the returned physical plan vs the real run from a restored state",
             "Held on the sampled states: dry runs stamped only modified-time queries and changed nothing; executing all nodes of the returned plan alone gave the same event multiset, store contents and output as the real run.",
             "snapshot/restore of in-memory stores", "3/C14"),
@@ -92,7 +98,7 @@ def main():
             "level_note": note,
             "technique": tech,
         })
-    na = [{"property_id": cid, "reason": "check not built yet in this revision of /verif (planned: see DESIGN.md section 3)"}
+    na = [{"property_id": cid, "reason": "check not built in this revision of /verif (see DESIGN.md section 3)"}
           for cid in props if cid not in existing]
     m = {
         "version": 1,
